@@ -37,18 +37,29 @@ def proof_step(prop):
     info['cone'] = cone
     info['obligations'] = nthm
     info['log'] = out[-4000:]
-    # Print Assumptions output is produced only when the file is (re)compiled; keep a copy
-    ap = os.path.join(lib.CACHE, 'assumptions', prop + '.txt')
+    # Print Assumptions output is produced only when the property file is (re)compiled: keep a copy
+    # keyed by the content of the whole cone, and force a recompilation when there is none for it
+    import hashlib
+    h = hashlib.sha1()
+    for f in cone:
+        try:
+            h.update(open(os.path.join(lib.COQ, f), 'rb').read())
+        except OSError:
+            pass
+    ap = os.path.join(lib.CACHE, 'assumptions', '%s-%s.txt' % (prop, h.hexdigest()[:16]))
     os.makedirs(os.path.dirname(ap), exist_ok=True)
-    if rc == 0 and 'COQC ' + vfile in out or (rc == 0 and not os.path.exists(ap)):
-        if 'COQC ' + vfile not in out:
-            # force a recompilation of just the property file to capture its assumptions
-            try:
-                os.remove(os.path.join(lib.COQ, vfile + 'o'))
-            except OSError:
-                pass
+    if rc == 0:
+        if 'COQC ' + vfile in out:
+            open(ap, 'w').write(out)
+        elif not os.path.exists(ap):
+            with lib.Lock('coq'):
+                try:
+                    os.remove(os.path.join(lib.COQ, vfile + 'o'))
+                except OSError:
+                    pass
             rc, out = lib.coq_build(vfile + 'o')
-        open(ap, 'w').write(out)
+            if rc == 0:
+                open(ap, 'w').write(out)
     if rc != 0:
         info['broken'] = 'coq build failed for %s' % vfile
         return info
@@ -59,8 +70,9 @@ def proof_step(prop):
     if axioms:
         info['broken'] = 'Print Assumptions reports axioms: %s' % axioms
         return info
-    if closed == 0:
-        info['broken'] = 'no Print Assumptions output captured'
+    nprint = len(__import__('re').findall(r'^Print Assumptions ', lib.strip_comments(open(os.path.join(lib.COQ, vfile)).read()), __import__('re').M))
+    if closed == 0 or closed != nprint:
+        info['broken'] = 'Print Assumptions: %d commands in %s but %d "Closed under the global context" captured' % (nprint, vfile, closed)
         return info
     if bad:
         info['broken'] = 'forbidden tokens: %s' % bad[:5]
